@@ -10,6 +10,7 @@ import (
 	"os"
 	"runtime"
 	"sync"
+	"unsafe"
 )
 
 type vpTapeEntry struct {
@@ -177,6 +178,47 @@ func vpUnchangedButValues(i int, s vpTreeState) bool {
 func vpRetained(s vpTreeState) uint64 {
 	_, n := dumpTree(s.lv, s.root, s.size, false)
 	return uint64(n)
+}
+
+// vpReachableLeaves: leaf objects reachable from the index through ANY pointer slot, occupied or not (a slot
+// beyond the fan-out that still points at a removed leaf keeps that leaf, its key and its value alive).
+// Executor: objects of a leaf type among everything reachable from the tree state. Native: the same walk.
+func vpReachableLeaves(s vpTreeState) uint64 {
+	seen := map[unsafe.Pointer]bool{}
+	var n uint64
+	var walk func(ref nodeRef, depth int)
+	walk = func(ref nodeRef, depth int) {
+		if ref.pointer == nil || seen[ref.pointer] || depth > 64 {
+			return
+		}
+		seen[ref.pointer] = true
+		switch ref.tag {
+		case nodeKindLeaf:
+			n++
+		case nodeKind4:
+			x := (*node4)(ref.pointer)
+			for i := range x.children {
+				walk(x.children[i], depth+1)
+			}
+		case nodeKind16:
+			x := (*node16)(ref.pointer)
+			for i := range x.children {
+				walk(x.children[i], depth+1)
+			}
+		case nodeKind48:
+			x := (*node48)(ref.pointer)
+			for i := range x.children {
+				walk(x.children[i], depth+1)
+			}
+		case nodeKind256:
+			x := (*node256)(ref.pointer)
+			for i := range x.children {
+				walk(x.children[i], depth+1)
+			}
+		}
+	}
+	walk(s.root, 0)
+	return n
 }
 
 func vpPoolOps() uint64          { return 0 }
